@@ -7,6 +7,8 @@ AS_H = 'src/tbb/arena_slot.h'
 TD_CPP = 'src/tbb/task_dispatcher.cpp'
 PF_H = 'include/oneapi/tbb/parallel_for.h'
 MB_H = 'src/tbb/mailbox.h'
+CUB_H = 'include/oneapi/tbb/detail/_concurrent_unordered_base.h'
+CSL_H = 'include/oneapi/tbb/detail/_concurrent_skip_list.h'
 CV_H = 'include/oneapi/tbb/concurrent_vector.h'
 CHM_H = 'include/oneapi/tbb/concurrent_hash_map.h'
 CQB_H = 'include/oneapi/tbb/detail/_concurrent_queue_base.h'
@@ -447,6 +449,32 @@ MUTANTS = [
          "        size_type start_idx = this->my_size.fetch_add(delta);\n        size_type end_idx = start_idx + delta;\n        if (end_idx > 1000000) shrink_to_fit();")]),
     dict(name='c11-segment-base-off', prop='C11', clause='D5', edits=[
         ('include/oneapi/tbb/detail/_segment_table.h', "        return size_type(1) << index & ~size_type(1);", "        return size_type(1) << index & ~size_type(3);")]),
+    # ---------------------------------------------------------------- C12
+    dict(name='c12-cas-before-set_next', prop='C12', clause='D1', edits=[
+        (CUB_H, "        new_node->set_next(current_next_node);\n        return prev_node->try_set_next(current_next_node, new_node);",
+         "        bool r = prev_node->try_set_next(current_next_node, new_node);\n        new_node->set_next(current_next_node);\n        return r;")]),
+    dict(name='c12-retry-stale', prop='C12', clause='D1', edits=[
+        (CUB_H, "        while (!try_insert(prev, new_node, curr)) {\n            search_result = search_after(prev, order_key, key);\n            if (search_result.second) {\n                return internal_insert_return_type{ new_node, search_result.first, false };\n            }\n            curr = search_result.first;\n        }",
+         "        while (!try_insert(prev, new_node, curr)) {\n            curr = prev->next();\n        }")]),
+    dict(name='c12-try_set_next-store', prop='C12', clause='D1', edits=[
+        (CUB_H, "        return my_next.compare_exchange_strong(expected_next, new_next);", "        if (my_next.load() != expected_next) return false; my_next.store(new_next); return true;")]),
+    dict(name='c12-size-before-link', prop='C12', clause='D1', edits=[
+        (CUB_H, "        value_node_ptr new_node = create_insert_node(order_key);\n        node_ptr curr = search_result.first;\n",
+         "        value_node_ptr new_node = create_insert_node(order_key);\n        node_ptr curr = search_result.first;\n        my_size.fetch_add(1);\n")]),
+    dict(name='c12-bucket-store-before-dummy', prop='C12', clause='D2', edits=[
+        (CUB_H, "        node_ptr dummy_node = insert_dummy_node(parent, split_order_key_dummy(bucket));",
+         "        my_segments[bucket].store(parent, std::memory_order_release);\n        node_ptr dummy_node = insert_dummy_node(parent, split_order_key_dummy(bucket));")]),
+    dict(name='c12-dummy-loser-leaks', prop='C12', clause='D2', edits=[
+        (CUB_H, "                destroy_node(dummy_node);\n                return next_node;", "                return next_node;")]),
+    dict(name='c12-skiplist-upper-first', prop='C12', clause='D3', edits=[
+        (CSL_H, "            new_node->set_next(0, next);\n            if (!prev->atomic_next(0).compare_exchange_strong(next, new_node)) {\n                continue;\n            }",
+         "            new_node->set_next(0, next);\n            if (new_height > 1) { node_ptr n1 = curr_nodes[1]; new_node->set_next(1, n1); prev_nodes[1]->atomic_next(1).compare_exchange_strong(n1, new_node); }\n            if (!prev->atomic_next(0).compare_exchange_strong(next, new_node)) {\n                continue;\n            }")]),
+    dict(name='c12-skiplist-no-found-test', prop='C12', clause='D3', edits=[
+        (CSL_H, "                if (found(next, get_key(new_node))) {\n                    return std::pair<iterator, bool>(iterator(next), false);\n                }", "")]),
+    dict(name='c12-skiplist-set_next-once', prop='C12', clause='D3', edits=[
+        (CSL_H, "                    new_node->set_next(level, next);\n                    __TBB_ASSERT(new_node->height() > level, \"Internal structure break\");", "                    __TBB_ASSERT(new_node->height() > level, \"Internal structure break\");")]),
+    dict(name='c12-skiplist-keep-rejected', prop='C12', clause='D3', edits=[
+        (CSL_H, "        if (!insert_result.second) {\n            delete_value_node(new_node);\n        }\n        return insert_result;", "        return insert_result;")]),
 ]
 
 BENIGN = [
@@ -485,4 +513,6 @@ BENIGN = [
     dict(name='c11-b-size_type-delta', prop='C11', edits=[
         (CV_H, "        if (old_size < new_size) {\n            return internal_grow(old_size, new_size, args...);\n        }",
          "        size_type delta = old_size < new_size ? new_size - old_size : 0;\n        if (delta > 0) {\n            return internal_grow(old_size, new_size, args...);\n        }")]),
+    dict(name='c12-b-set_next-seqcst', prop='C12', edits=[
+        (CUB_H, "        my_next.store(next_node, std::memory_order_release);", "        my_next.store(next_node);")]),
 ]
